@@ -212,6 +212,11 @@ func GenFileScript(r *Rng, hist map[string]int) []string {
 	if staging {
 		out = append(out, "F flush")
 	}
+	if r.Chance(1, 3) {
+		// the last record of the file ends in zero bytes (a value of zeros): nothing may take them for unwritten space
+		out = append(out, fmt.Sprintf("F put 0 6b7a %s 0", strings.Repeat("00", 1+r.Intn(40))))
+		hist["last_record_ends_in_zero_bytes"]++
+	}
 	out = append(out, "F size", "F bytes", "F scan")
 	out = append(out, "F getall")
 	if r.Chance(1, 4) {
